@@ -896,11 +896,15 @@ func c04ManyClients(e *Env, root string) {
 			if verr != nil {
 				return false
 			}
-			if err := victim.Send(wire.P(wire.OpOpen, "/big.bin")); err != nil {
-				return false
-			}
-			if b, st := victim.ReadN(16); st != wire.Full || len(b) != 16 {
-				return false
+			if stage == "before" {
+				// the file is opened once: while descriptors are exhausted the victim only goes on reading
+				// from the handle it already has (a *new* open may fail for lack of descriptors)
+				if err := victim.Send(wire.P(wire.OpOpen, "/big.bin")); err != nil {
+					return false
+				}
+				if b, st := victim.ReadN(16); st != wire.Full || len(b) != 16 {
+					return false
+				}
 			}
 			victim.Send(wire.Crit(uint32(len(want)), 0))
 			b, st := victim.ReadN(len(want))
